@@ -8,6 +8,8 @@ import GormModel.Lemmas.Tx
 import GormModel.Lemmas.TxRefine
 import GormModel.Lemmas.TxValues
 import GormModel.Lemmas.TxLeak
+import GormModel.Lemmas.TxForms
+import GormModel.Gen.C04bSites
 import GormModel.Gen.BeginFacts
 namespace Gorm
 open Gorm.Tx
@@ -434,5 +436,101 @@ theorem C04_write_restores_pool (skip errNil beginOk : Bool) (s : OpSt)
   subst hs heq
   cases sp <;> simp [Pool.isCommitter] at hc <;>
     cases skip <;> cases errNil <;> cases beginOk <;> simp [writeSt, beginTransactionSt, commitOrRollbackSt]
+
+/-! ### ROUND 5 — every write FORM, parametrised by the pool its call site hands the statement to (Model/TxForms.lean) -/
+
+/-- REGENERATED FACT (extract/gen_c04b.go, rebuilt from the tree on every run): every `ExecContext(` / `QueryContext(` /
+    `QueryRowContext(` call of callbacks/*.go and of the finisher / association / scan files is made on
+    `<x>.Statement.ConnPool` (class 0) — never on `db.ConnPool` / `db.Config.ConnPool`; each statement-sending pipeline
+    (create, update, delete, query, raw exec, row) has its sites in the table; and the configured pool is mentioned nowhere
+    else in those files except where callbacks/transaction.go puts the statement back on it after the implicit transaction. -/
+theorem C04_call_sites_on_statement_pool :
+    Gen.c04bCallSites.all (fun s => s.2.2.2 == 0) = true ∧
+    (["Create", "Update", "Delete", "Query", "RawExec", "RowQuery"].all
+      (fun f => Gen.c04bCallSites.any (fun s => s.2.1 == f)) = true) ∧
+    (Gen.c04bCfgPoolMentions.all
+      (fun m => m.1 == "callbacks/transaction.go" && m.2.1 == "CommitOrRollbackTransaction" && m.2.2 == "assign-to-stmt-pool") = true ∧
+     Gen.c04bCfgPoolMentions.length ≤ 1) ∧
+    (∀ i, i < Gen.c04bCallSites.length → siteSel i = .stmt) :=
+  ⟨sites_all_stmt_pool, sites_cover_pipelines, cfg_pool_mentions_only_restore, siteSel_stmt⟩
+
+/-- WRITE FORMS TOUCH ONLY THE TRANSACTION: whatever finisher forms (any number of statements each — RETURNING variants,
+    upserts, batches, update-then-insert, cascades, association writes, raw statements, reads in between), issued through
+    a transaction handle, all of whose call sites name the statement pool: the committed store is untouched, the open
+    transaction stays open and its save-point stack is unchanged (only its working store moves). -/
+theorem C04_forms_isolated (sel : Nat → PoolSel) (o : Oracle) (h : Handle) (fs : List FormOp)
+    (hsel : ∀ s ∈ sitesOf fs, sel s = .stmt) (db : DB) :
+    (runForms sel o h fs db).1.committed = db.committed ∧
+    (∀ t, db.tx = some t → ∃ cur, (runForms sel o h fs db).1.tx = some { cur := cur, saves := t.saves }) ∧
+    (db.tx = none → (runForms sel o h fs db).1.tx = none) :=
+  ⟨(runForms_stmt_frame sel o h fs hsel db).1, (runForms_stmt_frame sel o h fs hsel db).2.2.2.2.1,
+   (runForms_stmt_frame sel o h fs hsel db).2.2.2.2.2⟩
+
+/-- ALL OR NOTHING FOR EVERY WRITE FORM, with the write step parametrised by the pool: a top-level Transaction block whose
+    function issues any write forms whose call sites name the STATEMENT pool leaves no transaction open, leaves the
+    committed store exactly as it was unless it returns nil, and then commits exactly the working store the forms left. -/
+theorem C04_form_block_all_or_nothing (sel : Nat → PoolSel) (c : Cfg) (o : Oracle) (fs : List FormOp) (out : Out) (tag : Nat)
+    (db : DB) (hsel : ∀ s ∈ sitesOf fs, sel s = .stmt) (hd : db.tx = none)
+    (hs : (formBlock sel c o fs out tag db).1.stale = false) :
+    (formBlock sel c o fs out tag db).1.tx = none ∧
+    ((formBlock sel c o fs out tag db).2 ≠ .ok → (formBlock sel c o fs out tag db).1.committed = db.committed) ∧
+    ((formBlock sel c o fs out tag db).2 = .ok →
+        out = .retNil ∧
+        ∃ t, (runForms sel o (gormBegin c.beginGuard o c.root db).2 fs (gormBegin c.beginGuard o c.root db).1).1.tx = some t ∧
+             (formBlock sel c o fs out tag db).1.committed = t.cur) :=
+  form_block_all_or_nothing sel c o fs out tag db hsel hd hs
+
+/-- … instantiated at the pool selector OF THE TREE BEING VERIFIED (regenerated table): for every program whose forms name
+    call sites of the table, unconditionally. A tree in which one site names the configured pool does not build this. -/
+theorem C04_form_block_current_tree (c : Cfg) (o : Oracle) (fs : List FormOp) (out : Out) (tag : Nat) (db : DB)
+    (hsites : ∀ s ∈ sitesOf fs, s < Gen.c04bCallSites.length) (hd : db.tx = none)
+    (hs : (formBlock siteSel c o fs out tag db).1.stale = false) :
+    (formBlock siteSel c o fs out tag db).1.tx = none ∧
+    ((formBlock siteSel c o fs out tag db).2 ≠ .ok → (formBlock siteSel c o fs out tag db).1.committed = db.committed) :=
+  ⟨(form_block_all_or_nothing siteSel c o fs out tag db (fun s hsm => siteSel_stmt s (hsites s hsm)) hd hs).1,
+   (form_block_all_or_nothing siteSel c o fs out tag db (fun s hsm => siteSel_stmt s (hsites s hsm)) hd hs).2.1⟩
+
+/-- NESTED LOCALITY for every write form on the statement pool: a failing nested block restores exactly its entry working
+    store and leaves the entry save-point stack plus its own save point; nothing reached the committed store. -/
+theorem C04_form_nested_local (sel : Nat → PoolSel) (o : Oracle) (h : Handle) (he : h.err = []) (db : DB) (v : Store)
+    (S : List (SpName × Store)) (ht : db.tx = some { cur := v, saves := S })
+    (fs : List FormOp) (out : Out) (tag : Nat) (hsel : ∀ s ∈ sitesOf fs, sel s = .stmt)
+    (hsp : o db.calls = false) (hrf : db.rbFaultable = false)
+    (hr : (formNested sel o h fs out tag db).2.2 ≠ .ok) :
+    (formNested sel o h fs out tag db).1.tx = some { cur := v, saves := (SpName.auto db.calls, v) :: S } ∧
+    (formNested sel o h fs out tag db).1.committed = db.committed :=
+  form_nested_local sel o h he db v S ht fs out tag hsel hsp hrf hr
+
+/-- the hypothesis on the pool is NEEDED (kernel-checked): with the one statement of a form sent to the configured pool, a
+    block that returns an error leaves its row durable; with the statement pool the same block leaves nothing. -/
+theorem C04_form_config_pool_counterexample :
+    (formBlock (fun _ => PoolSel.cfg) { prep := false, dis := false, skip := false } (fun _ => false)
+        [{ stmts := [.exec [.ins 1] 0], must := true }] .retErr 7 { committed := [] }).2 = .err [.user 7] ∧
+    (formBlock (fun _ => PoolSel.cfg) { prep := false, dis := false, skip := false } (fun _ => false)
+        [{ stmts := [.exec [.ins 1] 0], must := true }] .retErr 7 { committed := [] }).1.committed = [1] ∧
+    (formBlock (fun _ => PoolSel.stmt) { prep := false, dis := false, skip := false } (fun _ => false)
+        [{ stmts := [.exec [.ins 1] 0], must := true }] .retErr 7 { committed := [] }).1.committed = [] :=
+  form_cfg_pool_counterexample
+
+/-- BRIDGE to the program trees: single-row forms on the statement pool, issued through a clean transaction handle, ARE
+    sequences of Model.Tx writes / reads — `runForms` and `runBody` of the expansion agree on the whole database state and
+    the result, so C04_refines, C04_savepoint_stack, C04_nested_local … speak about every such form. -/
+theorem C04_forms_are_writes (sel : Nat → PoolSel) (c : Cfg) (o : Oracle) (h : Handle)
+    (hp : h.pool.isCommitter = true) (he : h.err = []) (fs : List FormOp)
+    (hsel : ∀ s ∈ sitesOf fs, sel s = .stmt) (hsr : ∀ f ∈ fs, f.must = true ∧ singleRow f.stmts = true) (db : DB) :
+    (runForms sel o h fs db).1 = (runBody c o h (expandForms fs) db).1 ∧
+    (runForms sel o h fs db).2 = (runBody c o h (expandForms fs) db).2.2 :=
+  runForms_eq_runBody sel c o h hp he fs hsel hsr db
+
+/-- non-vacuity: a two-statement form (update-then-insert, as `Save` issues it) followed by a cascade delete, in a block
+    that returns an error, on the tree's own selector: nothing durable; the same block returning nil: both durable -/
+example :
+    (formBlock siteSel C04_cfg0 (fun _ => false)
+        [{ stmts := [.exec [.nop] 9, .exec [.ins 7] 1], must := true }, { stmts := [.exec [.del 3, .del 4] 2], must := true }]
+        .retErr 5 { committed := [3, 4, 5] }).1.committed = [3, 4, 5] ∧
+    (formBlock siteSel C04_cfg0 (fun _ => false)
+        [{ stmts := [.exec [.nop] 9, .exec [.ins 7] 1], must := true }, { stmts := [.exec [.del 3, .del 4] 2], must := true }]
+        .retNil 5 { committed := [3, 4, 5] }).1.committed = [5, 7] := by
+  decide +kernel
 
 end Gorm
